@@ -65,6 +65,17 @@ class ServiceDown(Exception):
     pass
 
 
+_CONV = {'fail': False}
+
+
+def _convert_response(response):
+    from deep.grpc import convert_response
+    if _CONV['fail']:
+        _CONV['fail'] = False
+        raise ValueError('cannot convert this response (injected)')
+    return convert_response(response)
+
+
 def make_factory(desc):
     import deep.config.tracepoint_config as TCm
     from deep.config import ConfigService
@@ -79,6 +90,7 @@ def make_factory(desc):
 
     def make(sched):
         sched.filter = FILTER
+        _CONV['fail'] = False
         st = {'server_version': 1, 'npoll': 0, 'seen_hashes': [], 'returned': [], 'last_good': None, 'live': [], 'errors': []}
 
         def poll_handler(req, md):
@@ -95,12 +107,13 @@ def make_factory(desc):
             if act == 'garbage':
                 return object()
             if act == 'unconvertible':
-                # a well-formed message the client cannot turn into tracepoints (unknown metric type): the poll fails as a whole
-                from deepproto.proto.tracepoint.v1.tracepoint_pb2 import Metric
+                # a well-formed UPDATE whose conversion into tracepoints fails as a whole (injected at the convert_response seam; a single
+                # tracepoint that cannot be interpreted is skipped on its own - that is C11's): the poll fails, nothing of it is adopted
                 st['server_version'] += 1
                 v = st['server_version']
+                _CONV['fail'] = True
                 return PollResponse(ts_nanos=i + 1, current_hash='h%d' % v, response_type=ResponseType.UPDATE,
-                                    response=[PB(ID='svc-%d' % v, path='f.py', line_number=10 + v, args={}, metrics=[Metric(name='m', type=99)])])
+                                    response=[PB(ID='svc-%d' % v, path='f.py', line_number=10 + v, args={})])
             if req.current_hash == 'h%d' % v:
                 return PollResponse(ts_nanos=i + 1, current_hash='h%d' % v, response_type=ResponseType.NO_CHANGE)
             st['returned'].append(v)
@@ -228,8 +241,10 @@ def run_case(ctx, desc):
 
     saved_uuid = TCm.uuid
     try:
+        import deep.poll.poll as PPm
         with shims.patched((deep.task, 'ThreadPoolExecutor', shims.SchedPool), (deep.task, 'threading', shims.ThreadingShim()),
-                           (ATT, 'threading', shims.ThreadingShim()), (TCm, 'threading', shims.ThreadingShim())), rig.VirtualClock():
+                           (ATT, 'threading', shims.ThreadingShim()), (TCm, 'threading', shims.ThreadingShim()),
+                           (PPm, 'convert_response', _convert_response)), rig.VirtualClock():
             if 'schedule' in desc:
                 sched, st = S.run_one(make2, desc['schedule'])
                 ctx.traces += 1
